@@ -43,7 +43,7 @@ BITS = {
     'bits_output': 'Output::{new, zero, value, is_zero, prefix, cat, sub}: min, +, - on the wrapped u64',
 }
 for _h, _d in BITS.items():
-    H[_h] = ('k_bits.rs', 'crate', ('thorough', 'fallback'), _d, 'complete (loop-free, full input domain)')
+    H[_h] = ('k_bits.rs', 'crate', ('quick', 'thorough', 'fallback'), _d, 'complete (loop-free, full input domain)')
 # Verus function (unit, name as in the ledger) -> harness that states the same contract
 FALLBACK = {}
 for _f in ('new', 'decode', 'encode', 'transition_pack_size', 'output_pack_size', 'set_transition_pack_size', 'set_output_pack_size'):
